@@ -76,8 +76,13 @@ def gen_cases(tier, seed):
                             else:
                                 at = 't0/s3:PutObject#0' + (f'.retry{j}' if j else '')
                                 plen = size
-                            faults.append({'at': at, 'phase': 'mid', 'bytes': rng.randrange(0, plen + 1),
-                                           'kind': rng.choice(['retry500', 'retryconn']), 'tag': f'FAULT-r{j}'})
+                            if rng.random() < 0.3:
+                                # the attempt fails before a single byte of the body was read (connect error, refused
+                                # Expect: 100-continue): the client still rewinds the body before it tries again
+                                faults.append({'at': at, 'phase': 'before', 'kind': rng.choice(['retry500', 'retryconn']), 'tag': f'FAULT-r{j}'})
+                            else:
+                                faults.append({'at': at, 'phase': 'mid', 'bytes': rng.randrange(0, plen + 1),
+                                               'kind': rng.choice(['retry500', 'retryconn']), 'tag': f'FAULT-r{j}'})
                         spec['plan']['faults'] = faults
                     if nparts >= 2 and r < 0.5:
                         spec['plan']['gate'] = {'match': 's3:UploadPart', 'phase': rng.choice(['before', 'after']),
